@@ -1,0 +1,71 @@
+//go:build verif
+
+// Contracts for govc (the /verif contract verifier). Comment-only: with the build tag off this file is not
+// compiled, with it on it adds no code.
+package plugins
+
+// C26 values. penc(p, v): the wire message p carries the value v — same TypeID; the scalar of that TypeID (Int, Float
+// by bit pattern, Boolean, String bytes, Time as an instant, Duration) is the same; List / Struct / Tuple have the same
+// length and carry the elements in order. NativeValueToProto produces a message that carries its argument;
+// ToNativeValue produces a value that its (well-formed) message carries. penc is functional in v up to the zone of a
+// Time (lemma pencFunctional): so decoding an encoded value gives the value back.
+//@ spec tsns(p *timestamppb.Timestamp) int = ite(p == nil, 0, extInt("timestamppb.ns", addr(p)))
+//@ spec durns(p *durationpb.Duration) int = ite(p == nil, 0, extInt("durationpb.ns", addr(p)))
+//@ spec rec penc(p *Value, v octosql.Value) bool = p != nil && p.TypeId == v.TypeID && (v.TypeID == 1 ==> p.Int == v.Int) && (v.TypeID == 2 ==> same(p.Float, v.Float)) && (v.TypeID == 3 ==> p.Boolean == v.Boolean) && (v.TypeID == 4 ==> p.Str == v.Str) && (v.TypeID == 5 ==> tsns(p.Time) == v.Time.ns) && (v.TypeID == 6 ==> durns(p.Duration) == v.Duration) && (v.TypeID == 7 ==> len(p.List) == len(v.List) && forall(j, 0, len(v.List), penc(p.List[j], v.List[j]))) && (v.TypeID == 8 ==> len(p.Struct) == len(v.Struct) && forall(j, 0, len(v.Struct), penc(p.Struct[j], v.Struct[j]))) && (v.TypeID == 9 ==> len(p.Tuple) == len(v.Tuple) && forall(j, 0, len(v.Tuple), penc(p.Tuple[j], v.Tuple[j])))
+//@ spec rec shaped(v octosql.Value) bool = 0 <= v.TypeID && v.TypeID <= 9 && (v.TypeID == 7 ==> forall(j, 0, len(v.List), shaped(v.List[j]))) && (v.TypeID == 8 ==> forall(j, 0, len(v.Struct), shaped(v.Struct[j]))) && (v.TypeID == 9 ==> forall(j, 0, len(v.Tuple), shaped(v.Tuple[j])))
+//@ func NativeValueToProto
+//@   requires shape: shaped(value)
+//@   loop 1 invariant list: 0 <= $k && $k <= len(value.List) && len(elements) == len(value.List) && forall(j, 0, $k, penc(elements[j], value.List[j]))
+//@   loop 2 invariant struct: 0 <= $k && $k <= len(value.Struct) && len(elements) == len(value.Struct) && forall(j, 0, $k, penc(elements[j], value.Struct[j]))
+//@   loop 3 invariant tuple: 0 <= $k && $k <= len(value.Tuple) && len(elements) == len(value.Tuple) && forall(j, 0, $k, penc(elements[j], value.Tuple[j]))
+//@   ensures carries: penc(result, value)
+//@ spec rec pshaped(p *Value) bool = p != nil && 0 <= p.TypeId && p.TypeId <= 9 && (p.TypeId == 7 ==> forall(j, 0, len(p.List), pshaped(p.List[j]))) && (p.TypeId == 8 ==> forall(j, 0, len(p.Struct), pshaped(p.Struct[j]))) && (p.TypeId == 9 ==> forall(j, 0, len(p.Tuple), pshaped(p.Tuple[j])))
+//@ func (*Value).ToNativeValue
+//@   requires shape: pshaped(x)
+//@   loop 1 invariant list: 0 <= $k && $k <= len(x.List) && len(elements) == len(x.List) && forall(j, 0, $k, penc(x.List[j], elements[j]))
+//@   loop 2 invariant struct: 0 <= $k && $k <= len(x.Struct) && len(elements) == len(x.Struct) && forall(j, 0, $k, penc(x.Struct[j], elements[j]))
+//@   loop 3 invariant tuple: 0 <= $k && $k <= len(x.Tuple) && len(elements) == len(x.Tuple) && forall(j, 0, $k, penc(x.Tuple[j], elements[j]))
+//@   ensures carries: penc(x, result)
+
+// C26 types. tenc(p, t): the wire message p carries the type t — same TypeID; a list carries its element type (or
+// none), a struct its fields by name and type in order, a tuple its element types, a union its alternatives, in order.
+//@ spec rec tenc(p *Type, t octosql.Type) bool = p != nil && p.TypeId == t.TypeID && (t.TypeID == 7 ==> (t.List.Element == nil ==> p.List == nil) && (t.List.Element != nil ==> tenc(p.List, deref(t.List.Element)))) && (t.TypeID == 8 ==> len(p.Struct) == len(t.Struct.Fields) && forall(j, 0, len(t.Struct.Fields), p.Struct[j] != nil && p.Struct[j].Name == t.Struct.Fields[j].Name && tenc(p.Struct[j].Type, t.Struct.Fields[j].Type))) && (t.TypeID == 9 ==> len(p.Tuple) == len(t.Tuple.Elements) && forall(j, 0, len(t.Tuple.Elements), tenc(p.Tuple[j], t.Tuple.Elements[j]))) && (t.TypeID == 10 ==> len(p.Union) == len(t.Union.Alternatives) && forall(j, 0, len(t.Union.Alternatives), tenc(p.Union[j], t.Union.Alternatives[j])))
+//@ spec rec tshaped(t octosql.Type) bool = 0 <= t.TypeID && t.TypeID <= 11 && (t.TypeID == 7 && t.List.Element != nil ==> tshaped(deref(t.List.Element))) && (t.TypeID == 8 ==> forall(j, 0, len(t.Struct.Fields), tshaped(t.Struct.Fields[j].Type))) && (t.TypeID == 9 ==> forall(j, 0, len(t.Tuple.Elements), tshaped(t.Tuple.Elements[j]))) && (t.TypeID == 10 ==> forall(j, 0, len(t.Union.Alternatives), tshaped(t.Union.Alternatives[j])))
+//@ func NativeTypeToProto
+//@   requires shape: tshaped(t)
+//@   loop 1 invariant fields: 0 <= $k && $k <= len(t.Struct.Fields) && len(elements) == len(t.Struct.Fields) && forall(j, 0, $k, elements[j] != nil && addr(elements[j]) < frontier() && elements[j].Name == t.Struct.Fields[j].Name && tenc(elements[j].Type, t.Struct.Fields[j].Type))
+//@   loop 2 invariant tuple: 0 <= $k && $k <= len(t.Tuple.Elements) && len(elements) == len(t.Tuple.Elements) && forall(j, 0, $k, tenc(elements[j], t.Tuple.Elements[j]))
+//@   loop 3 invariant union: 0 <= $k && $k <= len(t.Union.Alternatives) && len(elements) == len(t.Union.Alternatives) && forall(j, 0, $k, tenc(elements[j], t.Union.Alternatives[j]))
+//@   ensures carries: tenc(result, t)
+//@ spec rec ptshaped(p *Type) bool = p != nil && 0 <= p.TypeId && p.TypeId <= 11 && (p.TypeId == 7 && p.List != nil ==> ptshaped(p.List)) && (p.TypeId == 8 ==> forall(j, 0, len(p.Struct), p.Struct[j] != nil && ptshaped(p.Struct[j].Type))) && (p.TypeId == 9 ==> forall(j, 0, len(p.Tuple), ptshaped(p.Tuple[j]))) && (p.TypeId == 10 ==> forall(j, 0, len(p.Union), ptshaped(p.Union[j])))
+//@ func (*Type).ToNativeType
+//@   requires shape: ptshaped(x)
+//@   loop 1 invariant fields: 0 <= $k && $k <= len(x.Struct) && len(elements) == len(x.Struct) && forall(j, 0, $k, x.Struct[j].Name == elements[j].Name && tenc(x.Struct[j].Type, elements[j].Type))
+//@   loop 2 invariant tuple: 0 <= $k && $k <= len(x.Tuple) && len(elements) == len(x.Tuple) && forall(j, 0, $k, tenc(x.Tuple[j], elements[j]))
+//@   loop 3 invariant union: 0 <= $k && $k <= len(x.Union) && len(elements) == len(x.Union) && forall(j, 0, $k, tenc(x.Union[j], elements[j]))
+//@   ensures carries: tenc(x, result)
+
+// C26 records, metadata (watermarks) and schemas: every component is carried — the values one by one (penc), the
+// retraction flag, the event time / watermark as an instant, the metadata type, the fields by name and type (tenc),
+// the time field index and the no-retractions flag (indices and the metadata type within int32, which they are).
+//@ func NativeRecordToProto
+//@   requires shape: forall(j, 0, len(record.Values), shaped(record.Values[j]))
+//@   loop 1 invariant values: 0 <= $k && $k <= len(record.Values) && len(values) == len(record.Values) && forall(j, 0, $k, penc(values[j], record.Values[j]))
+//@   ensures carries: result != nil && len(result.Values) == len(record.Values) && forall(j, 0, len(record.Values), penc(result.Values[j], record.Values[j])) && result.Retraction == record.Retraction && tsns(result.EventTime) == record.EventTime.ns
+//@ func (*Record).ToNativeRecord
+//@   requires shape: x != nil && forall(j, 0, len(x.Values), pshaped(x.Values[j]))
+//@   loop 1 invariant values: 0 <= $k && $k <= len(x.Values) && len(values) == len(x.Values) && forall(j, 0, $k, penc(x.Values[j], values[j]))
+//@   ensures carries: len(result.Values) == len(x.Values) && forall(j, 0, len(x.Values), penc(x.Values[j], result.Values[j])) && result.Retraction == x.Retraction && result.EventTime.ns == tsns(x.EventTime)
+//@ func NativeMetadataMessageToProto
+//@   ensures carries: result != nil && tsns(result.Watermark) == msg.Watermark.ns && (0 - 2147483648 <= msg.Type && msg.Type <= 2147483647 ==> result.MessageType == msg.Type)
+//@ func (*MetadataMessage).ToNativeMetadataMessage
+//@   requires x != nil
+//@   ensures carries: result.Type == x.MessageType && result.Watermark.ns == tsns(x.Watermark)
+//@ func NativeSchemaToProto
+//@   requires shape: forall(j, 0, len(schema.Fields), tshaped(schema.Fields[j].Type))
+//@   loop 1 invariant fields: 0 <= $k && $k <= len(schema.Fields) && len(fields) == len(schema.Fields) && forall(j, 0, $k, fields[j] != nil && addr(fields[j]) < frontier() && fields[j].Name == schema.Fields[j].Name && tenc(fields[j].Type, schema.Fields[j].Type))
+//@   ensures carries: result != nil && len(result.Fields) == len(schema.Fields) && forall(j, 0, len(schema.Fields), result.Fields[j] != nil && result.Fields[j].Name == schema.Fields[j].Name && tenc(result.Fields[j].Type, schema.Fields[j].Type)) && result.NoRetractions == schema.NoRetractions && (0 - 2147483648 <= schema.TimeField && schema.TimeField <= 2147483647 ==> result.TimeField == schema.TimeField)
+//@ func (*Schema).ToNativeSchema
+//@   requires shape: x != nil && forall(j, 0, len(x.Fields), x.Fields[j] != nil && ptshaped(x.Fields[j].Type))
+//@   loop 1 invariant fields: 0 <= $k && $k <= len(x.Fields) && len(fields) == len(x.Fields) && forall(j, 0, $k, fields[j].Name == x.Fields[j].Name && tenc(x.Fields[j].Type, fields[j].Type))
+//@   ensures carries: len(result.Fields) == len(x.Fields) && forall(j, 0, len(x.Fields), result.Fields[j].Name == x.Fields[j].Name && tenc(x.Fields[j].Type, result.Fields[j].Type)) && result.NoRetractions == x.NoRetractions && result.TimeField == x.TimeField
